@@ -404,8 +404,10 @@ def summarise(func, limit=6000, to_raise=True, lists=False):
                     core = t
                     while isinstance(core, ast.UnaryOp) and isinstance(core.op, ast.Not):
                         core = core.operand
-                    if isinstance(core, ast.Constant) and bool(core.value) != truth:
-                        ps.infeasible = True
+                    if isinstance(core, ast.Constant):
+                        if bool(core.value) != truth:
+                            ps.infeasible = True
+                        continue          # decided: not a fact of the path
                     # a display (fresh tuple/list/dict) or a non-None constant
                     # is never None
                     if isinstance(core, ast.Compare) and len(core.ops) == 1 and \
@@ -419,6 +421,31 @@ def summarise(func, limit=6000, to_raise=True, lists=False):
                                 isnone_claim = (c.endswith(' is None') and truth)
                                 if isnone_claim:
                                     ps.infeasible = True
+                    # a comparison of two literals is decided
+                    skip_fact = False
+                    if isinstance(core, ast.Compare) and len(core.ops) == 1 and \
+                            isinstance(core.left, ast.Constant) and \
+                            isinstance(core.comparators[0], ast.Constant) and \
+                            isinstance(core.ops[0], (ast.Is, ast.IsNot, ast.Eq, ast.NotEq)):
+                        lv, rv = core.left.value, core.comparators[0].value
+                        op_ = core.ops[0]
+                        if isinstance(op_, (ast.Is, ast.IsNot)):
+                            same_ = (lv is rv) or (type(lv) is type(rv) and lv == rv)
+                            val_ = same_ if isinstance(op_, ast.Is) else not same_
+                        else:
+                            val_ = (lv == rv) if isinstance(op_, ast.Eq) else (lv != rv)
+                        # `core` is t without its leading nots
+                        nots = 0
+                        x_ = t
+                        while isinstance(x_, ast.UnaryOp) and isinstance(x_.op, ast.Not):
+                            x_ = x_.operand
+                            nots += 1
+                        tval = val_ if nots % 2 == 0 else not val_
+                        if tval != (lab == 'T'):
+                            ps.infeasible = True
+                        skip_fact = True
+                    if skip_fact:
+                        continue
                     b = env.binding(a)
                     _mark_stale(ps, stale, nev)
                     nev = len(ps.events)
@@ -508,6 +535,8 @@ def summarise(func, limit=6000, to_raise=True, lists=False):
             if isinstance(a, ast.ExceptHandler):
                 if a.name:
                     env[a.name] = None
+                    # the caught exception is an object, never None
+                    ps.facts['%s is None' % a.name] = False
                 c = 'EXCEPT(%s)' % norm_src(a.type)
                 ps.facts[c] = True
                 ps.order.append((c, True, len(ps.events)))
@@ -635,9 +664,16 @@ def _assign(ps, n, t, v, env):
     elif isinstance(t, (ast.Tuple, ast.List)):
         known = isinstance(v, (ast.Tuple, ast.List)) and len(v.elts) == len(t.elts) \
             and not any(isinstance(x, ast.Starred) for x in list(v.elts) + list(t.elts))
+        starred = any(isinstance(x, ast.Starred) for x in t.elts)
         for k, e in enumerate(t.elts):
             if isinstance(e, ast.Name):
-                env[e.id] = v.elts[k] if known else None
+                if known:
+                    env[e.id] = v.elts[k]
+                elif v is not None and not starred and size(v) < MAX_NODES:
+                    env[e.id] = ast.Subscript(value=v, slice=ast.Constant(value=k),
+                                              ctx=ast.Load())
+                else:
+                    env[e.id] = None
             elif known:
                 _assign(ps, n, e, v.elts[k], env)
             elif v is not None and not isinstance(e, ast.Starred):
